@@ -111,7 +111,9 @@ REGISTRY["C01"] = {
             "(the log contains every operation and every state root).",
     "probes": ["forced_flush", "timer_flush_tick", "clean_restart", "backend_boltdb", "backend_leveldb", "backend_memory",
                "preloaded_tx", "tx_fault", "tx_halt", "validator_set_change", "election_block", "contract_deployed",
-               "contract_updated", "contract_destroyed", "tx_rejected_by_pool"],
+               "contract_updated", "contract_destroyed", "tx_rejected_by_pool",
+               "op_oracleRequest", "op_oracleResponse", "oracle_response_halt", "oracle_response_fault",
+               "oracle_response_unknown_id_rejected", "oracle_nodes_designated", "oracle_request_removed_after_response"],
     "components": _LEDGER_COMPONENTS,
     "assumptions": _LEDGER_ASSUMPTIONS,
 }
@@ -126,7 +128,8 @@ REGISTRY["C05"] = dict(REGISTRY["C01"], **{
     "rule": _LEDGER_RULE + "Oracle: independent arithmetic over raw NEO/GAS/Notary storage and AER Transfer events after every block. "
             "Non-trivial/distinct as for C01.",
     "probes": ["delta_checked_blocks", "candidate_with_votes", "voters_present", "notary_deposit_present", "clean_restart",
-               "validator_set_change", "election_block", "tx_fault", "op_vote", "op_register", "op_unregister", "op_notary", "op_payContract"],
+               "validator_set_change", "election_block", "tx_fault", "op_vote", "op_register", "op_unregister", "op_notary", "op_payContract",
+               "op_oracleRequest", "op_oracleResponse", "oracle_response_halt", "oracle_response_fault", "oracle_reward_as_modelled"],
 })
 REGISTRY["C03"] = dict(REGISTRY["C01"], **{
     "level_text": ("the same replicated-ledger simulation; the harness keeps per height the flat storage map read from the producer's "
